@@ -718,6 +718,13 @@ package graphql
 //@   reads ast.Directive.Name, ast.Directive.Arguments, ast.Argument.Name, ast.Argument.Value
 //@   reads ast.Variable.Name, ast.IntValue.Value, ast.FloatValue.Value, ast.StringValue.Value, ast.BooleanValue.Value, ast.EnumValue.Value, ast.ListValue.Values, ast.ObjectValue.Fields, ast.ObjectField.Name, ast.ObjectField.Value
 
+// writeString/writeByte only feed the hash.Hash (assumed not to touch the AST).
+//@ func fingerprintWriter.writeString
+//@   trusted
+//@   assigns nothing
+//@ func fingerprintWriter.writeByte
+//@   trusted
+//@   assigns nothing
 //@ func fingerprintWriter.writeValue
 //@   trusted
 //@   assigns nothing
